@@ -437,7 +437,7 @@ def _call_vector(m, v, a, kind):
     if m == "as_bytes": return v.as_bytes()
     if m == "as_date": return v.as_date()
     if m == "as_datetime": return v.as_datetime()
-    if m == "concat": return v.concat(v)
+    if m == "concat": return [lambda: v.concat(v), lambda: v.concat(), lambda: v.concat(v[:0]), lambda: v.concat(v[:0], v[:0])][a % 4]()
     if m == "drop_na": return v.drop_na()
     if m == "head": return v.head(a)
     if m == "tail": return v.tail(a)
